@@ -12,6 +12,7 @@
   `reads` (finished read-only calls), `done`/`before` (returned commits, snapshot at invocation).
 -/
 import Lungo.Proofs.ConcLogAll
+import Lungo.Proofs.ConcNamed
 namespace Lungo.Conc.C04
 open Lungo.Conc
 
@@ -71,23 +72,30 @@ theorem write_history_partial {n : Nat} {s : State} (h : Reachable n s) :
     ∀ e ∈ s.hist, Pre (e.seen ++ [e.op]) ((s.txns e.tid).base ++ (s.txns e.tid).ops) :=
   fun e he => ((inv3_reachable h).hinv e he).2
 
-/-- `real_time`: the log order respects real time.  `r.before` lists (transaction, end position in
-    the log) of every commit whose call had RETURNED when the call that began `r` was INVOKED
-    (snapshot of `done` taken at invocation); each of them ends at or before the position where
-    `r`'s operations start.  Moreover the commit point lies inside the call's interval
-    (`r.invLen ≤ |r.base|`, and `r`'s operations are in the catalog from the commit step on). -/
+/-- `real_time`: the log order respects real time.  `rB.before` is the snapshot, taken when the call
+    that began `rB` was INVOKED, of `done` = the (transaction, end position) pairs appended whenever a
+    call that committed RETURNS.  Every such pair is an actual commit record `rA`, and `rA`'s
+    operations end at or before the position where `rB`'s operations start: a transaction whose
+    committing call returned before another's call was issued comes first in the log.  Moreover the
+    commit point lies inside the call's interval (`rB.invLen ≤ |rB.base|`), and `rB`'s operations are
+    in the catalog from the commit step on. -/
 theorem real_time {n : Nat} {s : State} (h : Reachable n s) :
-    ∀ r ∈ s.commitLog, (∀ p ∈ r.before, p.2 ≤ r.base.length) ∧ r.invLen ≤ r.base.length ∧
-      r.base.length + r.ops.length ≤ s.eng.catalog.length := by
+    ∀ rB ∈ s.commitLog,
+      (∀ p ∈ rB.before, ∃ rA ∈ s.commitLog, rA.tid = p.1 ∧ rA.base.length + rA.ops.length = p.2 ∧
+          rA.base.length + rA.ops.length ≤ rB.base.length) ∧
+      rB.invLen ≤ rB.base.length ∧ rB.base.length + rB.ops.length ≤ s.eng.catalog.length := by
   intro r hr
   obtain ⟨h1, h2, h3⟩ := (inv3_reachable h).rinv.1 r hr
-  exact ⟨fun p hp => Nat.le_trans (h3 p hp) h2, h2, h1⟩
+  refine ⟨fun p hp => ?_, h2, h1⟩
+  obtain ⟨rA, hA, hA1, hA2⟩ := (ninv_reachable h).2.2.2 r hr p hp
+  exact ⟨rA, hA, hA1, hA2, by rw [hA2]; exact Nat.le_trans (h3 p hp) h2⟩
 
 /-- `real_time`, returned side: every entry of `done` (appended when the committing call returns)
-    is a position inside the current log. -/
+    names an actual commit record whose operations are inside the current log. -/
 theorem returned_in_log {n : Nat} {s : State} (h : Reachable n s) :
-    ∀ p ∈ s.done, p.2 ≤ s.eng.catalog.length :=
-  (inv3_reachable h).rinv.2.1
+    ∀ p ∈ s.done, (∃ rA ∈ s.commitLog, rA.tid = p.1 ∧ rA.base.length + rA.ops.length = p.2) ∧
+      p.2 ≤ s.eng.catalog.length :=
+  fun p hp => ⟨(ninv_reachable h).1 p hp, (inv3_reachable h).rinv.2.1 p hp⟩
 
 /-- `read_prefix`: every finished read-only call observed a prefix of the log whose length lies
     between the log length at its invocation and at its return — the state after a committed
